@@ -135,6 +135,75 @@ def typed_ops(vd, drv, wd, typed):
     return len(plan)
 
 
+ARITY = {"none": 0, "u": 1, "s": 1, "addr": 1, "us": 2, "uu": 2, "block": 1, "nested": 1, "die-s": 2, "die-block": 2}
+STD_FORMS = ["addr", "block2", "block4", "data2", "data4", "data8", "string", "block", "block1", "data1", "flag", "sdata", "strp", "udata",
+             "ref_addr", "ref1", "ref2", "ref4", "ref8", "ref_udata", "sec_offset", "exprloc", "flag_present", "strx", "addrx",
+             "line_strp", "implicit_const", "loclistx", "rnglistx", "strx1", "strx2", "strx3", "strx4", "addrx1", "addrx2", "addrx3", "addrx4"]
+
+
+def compiled_objects(vd, drv, wd, vecs):
+    """What a compiler writes (gen/samples, gcc / g++ at DWARF 2..5, -O0 and -O2): every operation that the tables
+    of tla/Loc.tla know reports as many operands as its class has; the laws of elements (length, relem, ?OP_x);
+    every attribute in a standard form yields a value (no `unhandled', no `not handled')."""
+    import shutil
+    if not shutil.which("gcc") or not shutil.which("g++"):
+        vd.assumptions.append("no gcc / g++: compiler-produced objects not checked"); return 0
+    arity = {}
+    for v in vecs:
+        if v["kind"] == "sweep": arity[v["ops"][0]["code"]] = ARITY[v["ops"][0]["cls"]]
+        elif v["kind"] == "typed": arity[v["op"]["code"]] = ARITY[v["op"]["cls"]]
+    arity[0x9e] = 1; arity[0x2f] = 1; arity[0x28] = 1; arity[0x9a] = 1          # implicit_value, skip, bra, call_ref
+    src = os.path.join(common.VERIF, "gen", "samples")
+    objs = []
+    for ver in (2, 3, 4, 5):
+        for opt in ("-O0", "-O2"):
+            for f, cc in (("s1.c", "gcc"), ("s2.cc", "g++")):
+                o = os.path.join(wd, "%s-v%d%s.o" % (f.split(".")[0], ver, opt))
+                pr = subprocess.run([cc, "-gdwarf-%d" % ver, "-gno-strict-dwarf" if ver > 3 else "-gstrict-dwarf", opt, "-c", os.path.join(src, f), "-o", o],
+                                    stdout=subprocess.PIPE, stderr=subprocess.PIPE)
+                if pr.returncode == 0:
+                    objs.append(o)
+    # the attributes of the location classes (Loc!LocAttrs) and those of call sites, whose value is an expression
+    locattrs = [v["at"] for v in vecs if v["kind"] == "locattr"] + ["call_value", "call_data_value", "call_data_location", "call_target",
+                                                                      "GNU_call_site_value", "GNU_call_site_data_value", "GNU_call_site_target"]
+    jobs = []
+    for o in objs:
+        jobs.append((o, "entry attribute (" + ", ".join("?AT_" + a for a in locattrs) + ") value (type == T_LOCLIST_ELEM) (|L| [[L elem (|O| [O label value, [O value] length])], L length, "
+                        "[L relem label value], [L elem label (|C| L ?(elem label == C) 1)] length])", False))
+        for f in STD_FORMS:
+            jobs.append((o, "entry attribute (form == DW_FORM_%s) [value] length" % f, False))
+    recs = D.run_queries(drv, jobs, wd, "compiled")
+    nops, seen_codes = 0, set()
+    for (o, q, _), rec in zip(jobs, recs):
+        vd.cov["evaluations"] += 1
+        name = os.path.basename(o)
+        if "T_LOCLIST_ELEM" not in q:
+            form = q.split("DW_FORM_")[1].split(")")[0]
+            if not rec or rec.get("status") != "ok":
+                # an attribute whose value DWARF 2 / 3 stores as an expression in a block (the bound of a variable
+                # length array) is reported as not interpreted ("no constant value"): allowed by the statement
+                if form.startswith("block") and "-v2" in name or "-v3" in name and form.startswith("block"):
+                    continue
+                vd.observe("compiled %s: an attribute in DW_FORM_%s is not interpreted: %s" % (name, form, (rec or {}).get("err", "?")[:100]), {"observed": rec})
+            elif any(D.cst(x[-1]) == 0 for x in rec["results"]):
+                vd.observe("compiled %s: an attribute in DW_FORM_%s has no value" % (name, form), {"n": len(rec["results"])})
+            continue
+        if not rec or rec.get("status") != "ok":
+            vd.observe("compiled %s: location elements: %s" % (name, (rec or {}).get("err", "?")[:100]), {"observed": rec}); continue
+        for x in rec["results"]:
+            g = x[-1]["v"]
+            ops = [(D.cst(o_["v"][0]), D.cst(o_["v"][1])) for o_ in g[0]["v"]]
+            if D.cst(g[1]) != len(ops) or [D.cst(c) for c in g[2]["v"]] != [c for c, _ in reversed(ops)] or D.cst(g[3]) != len(ops):
+                vd.observe("compiled %s: element laws (length / relem / ?OP_x)" % name, {"ops": ops, "observed": g}); break
+            for code, n in ops:
+                nops += 1; seen_codes.add(code)
+                if code in arity and n != arity[code]:
+                    vd.observe("compiled %s: operation %#x reports %d operand(s), its class has %d" % (name, code, n, arity[code]), {"ops": ops}); break
+    vd.sample({"compiled_objects": len(objs), "operations": nops, "distinct_opcodes": len(seen_codes),
+               "opcodes_outside_the_tables": sorted(hex(c) for c in seen_codes if c not in arity)})
+    return len(objs)
+
+
 def locations(vd, drv, wd, rng, tier):
     """The location part: expressions of tla/Loc.tla (menu pairs and the whole operand table) in every form and
     version, compared operation by operation.  Shared with C07, whose statement covers the operands of location
@@ -154,6 +223,7 @@ def locations(vd, drv, wd, rng, tier):
     if '"TYPEDOPS", TRUE, TRUE' not in r.out.replace("\n", " "):
         vd.observe("model:an operation of Loc!TypedOps does not report its operands (OperandsReported / TwinsAgree)", {"output": r.out[-2000:]})
     typed_ops(vd, drv, wd, [v for v in vecs if v["kind"] == "typed"])
+    compiled_objects(vd, drv, wd, vecs)
     refs = [v for v in vecs if v["kind"] == "abbrev"]
     vd.cov["states"] += len(vecs); vd.cov["transitions"] += len(vecs)
     # ---- locations: every expression as exprloc (v4, v5), block1 (v3) and inside a two/three-range location list (v3)
@@ -365,7 +435,10 @@ def run(tier):
     return vd.finish(rule="tla/Loc.tla: expressions of one or two operations over one opcode per operand class (none, unsigned, signed, "
                      "address, unsigned+signed, two unsigned, block, nested expression) with the value table of locexpr_op_values and "
                      "the element laws; each is generated as exprloc (DWARF 4, 5), block1 (DWARF 3) and as a 1-3 range location list "
-                     "(DWARF 2, 3) with boundary operands, and address, length, elem (offset, opcode, operands), relem, numbering and "
+                     "(DWARF 2, 3; DWARF 5: .debug_loclists by offset and by index, entries bounded in five ways) with boundary operands; every "
+                     "operation of the complete operand table and of Loc!TypedOps (DIE, index and nested operands, GNU and DWARF 5 twins) "
+                     "alone in an expression; gen/samples compiled by gcc / g++ at DWARF 2..5, -O0 and -O2: operand count by class for every "
+                     "operation the compiler wrote, element laws, every attribute in a standard form yields a value; address, length, elem (offset, opcode, operands), relem, numbering and "
                      "?OP_x are compared; abbreviations: every reference order of up to 4 units over 3 tables (stored in ascending or "
                      "descending offset order, DW_FORM_indirect, a childless DIE whose abbreviation claims children): the tables `abbrev' "
                      "yields (each once, each abbreviation once) and the abbreviation of every DIE; 7 law queries on 10 sample files")
